@@ -323,8 +323,40 @@ def compare(orig, got, what, drops_allowed):
     return out, known
 
 
+def check_cov_conflict(ctx, case, probs):
+    """two observables of one list carry a covariance input of the SAME name with DIFFERENT matrices: one table cannot hold
+    both, the list must be refused at every scale of the matrices (never written with the first one's matrix)"""
+    rng = __import__('random').Random(case['seed'])
+    nprng = np.random.default_rng(case['seed'])
+    sc = case['cov_conflict']
+    a = pe.Obs([gen_data(rng, nprng, 12, 'white') + 1.3], ['A|r1'])
+    b = pe.Obs([gen_data(rng, nprng, 12, 'white') + 0.7], ['A|r1'])
+    if case.get('cov') == 2:
+        m1 = np.array([[2.0, 0.5], [0.5, 1.0]]) * sc
+        m2 = m1 * (1 + case['cov_rel'])
+        c1, c2 = pe.cov_Obs([0.3, 0.6], m1, 'ZA'), pe.cov_Obs([0.3, 0.6], m2, 'ZA')
+        o1, o2 = a * c1[0] + c1[1], b * c2[0] - c2[1]
+    else:
+        c1, c2 = pe.cov_Obs(0.75, sc, 'ZA'), pe.cov_Obs(0.75, sc * (1 + case['cov_rel']), 'ZA')
+        o1, o2 = a * c1, b * c2
+    ctx.count('cov-conflict')
+    try:
+        s = dio.create_dobs_string([o1, o2], 'nm')
+    except Exception:
+        return
+    got = dio.import_dobs_string(s.encode())
+    covs = [np.atleast_2d(np.asarray(g.covobs['ZA'].cov, dtype=float)) for g in got if 'ZA' in g.covobs]
+    probs.append(('violation', 'dobs-accepts-inconsistent-covariance', 'two different matrices under the name ZA (scale %g, relative difference %g) were written; read back: %r' % (
+        sc, case['cov_rel'], [c.ravel()[:2].tolist() for c in covs])))
+
+
 def check_case(ctx, case):
     probs = []
+    if case.get('cov_conflict'):
+        with warnings.catch_warnings(), quiet():
+            warnings.simplefilter('ignore')
+            check_cov_conflict(ctx, case, probs)
+        return probs
     if case['fmt'] == 'pobs' and 'pobs_kind' in case:
         with warnings.catch_warnings(), quiet():
             warnings.simplefilter('ignore')
@@ -473,6 +505,10 @@ def gen_case(ctx):
         if rng.random() < 0.35 and any(v > 1 for v in case['nrep'].values()):
             case['frozen'] = rng.choice([0.0, 0.0, 0.0, 1.0, 2.0, -1.0])
     case['meta'] = rng.choice([None, None, 'plain', 'enstags'])
+    if fmt == 'dobs' and rng.random() < 0.08:
+        case['cov_conflict'] = rng.choice([2.5e-9, 1e-12, 0.04, 1.0, 1e6])
+        case['cov_rel'] = rng.choice([3.0, 0.3, 1e-3, 1e-7])
+        case['cov'] = rng.choice([1, 2])
     if fmt == 'pobs':
         case['pobs_kind'] = rng.choice(['primary', 'primary', 'derived', 'mixed'])
         case['sep_k'] = rng.choice([1, 1, 1, 2, 0])
